@@ -186,3 +186,6 @@ def finish(stats, tier):
     if not c.get("cli_matches"):
         out.append("command-line cross-check never selected a file")
     return out
+
+
+RULE += ' Since round 11 also: the command-line cross-check started from working directories whose names are glob syntax.'
